@@ -7,6 +7,7 @@ package main
 // except ^.  The real side parses the source with excellent.Parse and evaluates it in a scope over the same context.
 
 import (
+	"github.com/shopspring/decimal"
 	"strings"
 
 	"verifharness/pkg/hx"
@@ -41,7 +42,7 @@ func (g *exprGen) lit() gexpr {
 		return gexpr{"null", "(ELit VNil)"}
 	default:
 		s := hx.Pick(g.r, []string{"0", "1", "2", "3", "4", "10", "1.50", "0.5", "2.675", "100", "101", "2147483648", "4294967297", "18446744073709551616"})
-		return gexpr{s, "(ELit " + coqValue(vNum(s)) + ")"}
+		return gexpr{s, "(ELit " + coqValue(literalNum(s)) + ")"}
 	}
 }
 
@@ -121,7 +122,7 @@ func (g *exprGen) bin(op string, a, b gexpr) gexpr {
 
 func (g *exprGen) refTo(n string) gexpr { return gexpr{n, "(ERef " + hx.Str(n) + ")"} }
 
-func (g *exprGen) numLit(s string) gexpr { return gexpr{s, "(ELit " + coqValue(vNum(s)) + ")"} }
+func (g *exprGen) numLit(s string) gexpr { return gexpr{s, "(ELit " + coqValue(literalNum(s)) + ")"} }
 
 func (g *exprGen) textLit(s string) gexpr {
 	return gexpr{`"` + s + `"`, "(ELit (VText " + hx.Str(s) + "))"}
@@ -236,7 +237,7 @@ func (g *exprGen) typed(kind string, depth int) gexpr {
 
 func exprCorpus() []gexpr {
 	ref := func(n string) string { return "(ERef " + hx.Str(n) + ")" }
-	num := func(s string) string { return "(ELit " + coqValue(vNum(s)) + ")" }
+	num := func(s string) string { return "(ELit " + coqValue(literalNum(s)) + ")" }
 	return []gexpr{
 		{"arr[5]", "(EIdx " + ref("arr") + " " + num("5") + ")"},
 		{"arr[3]", "(EIdx " + ref("arr") + " " + num("3") + ")"},
@@ -306,4 +307,13 @@ func exprTasks(r *hx.Rand, n int) []*task {
 		tasks = append(tasks, cur)
 	}
 	return tasks
+}
+
+// a number LITERAL as the parser builds it since 70f045a: the scale of its value, not of how it was written
+// (1.50 is 15E-1, 0.00 is 0, 100 stays 100)
+func literalNum(s string) VSpec {
+	if d, err := decimal.NewFromString(s); err == nil && d.Exponent() < 0 {
+		s = d.String()
+	}
+	return vNum(s)
 }
